@@ -130,7 +130,7 @@ def _strip_comments(line: str, comment_markers: tuple[str, ...] = ALL_COMMENT_MA
     Returns:
         Line with comments removed
     """
-    if not any(marker in line for marker in comment_markers):
+    if not any(marker in line for marker in (*comment_markers, "/*")):
         return line
 
     quote = ""
@@ -146,6 +146,12 @@ def _strip_comments(line: str, comment_markers: tuple[str, ...] = ALL_COMMENT_MA
             quote = char
         elif line.startswith(comment_markers, index):
             return line[:index]
+        elif "//" in comment_markers and line.startswith("/*", index):
+            # a block comment that opens and closes on this line is dropped like a // comment
+            end = line.find("*/", index + 2)
+            if end >= 0:
+                line = line[:index] + " " + line[end + 2 :]
+                continue
         index += 1
     return line
 
